@@ -331,3 +331,9 @@ TELEMETRY_Q = dict(scenario='block_expr', args=dict(policy=expr_profile([OPS + [
                    label='operations nested in operations / sequences under verbosity Off and Debug (symbolic): count and per-tag breakdown (+, +=, Tpl, method source name)')
 PLANS['C15']['quick'] = PLANS['C15']['quick'] + [TELEMETRY_Q]
 PLANS['C15']['thorough'] = PLANS['C15']['thorough'] + [TELEMETRY_Q]
+
+PLANS['C04']['quick'] = PLANS['C04']['quick'] + [PROTO_Q]
+PLANS['C04']['thorough'] = PLANS['C04']['thorough'] + [PROTO_T]
+
+PLANS['C04']['quick'] = PLANS['C04']['quick'] + [OPTCHAIN_Q]
+PLANS['C04']['thorough'] = PLANS['C04']['thorough'] + [OPTCHAIN_Q]
